@@ -67,6 +67,16 @@ var baseTree = []treeSpec{
 	{rel: "lib/a.so", body: "lib-a", mode: 0o644, mtime: 1600002310},
 	{rel: "lib64", dir: true, mode: 0o755, mtime: 1600002320},
 	{rel: "lib64/b.so", body: "lib64-b", mode: 0o644, mtime: 1600002330},
+	// set-user-ID, set-group-ID and sticky bits on the build host: a source whose mode is not declared keeps them
+	// ("otherwise source mode minus umask"); io/fs reports them as ModeSetuid, ModeSetgid and ModeSticky, not 04000,
+	// 02000 and 01000
+	{rel: "special", dir: true, mode: 0o755, mtime: 1600002400},
+	{rel: "special/suid", body: "suid-on-disk", mode: os.ModeSetuid | 0o755, mtime: 1600002410},
+	{rel: "special/sgid", body: "sgid-on-disk", mode: os.ModeSetgid | 0o755, mtime: 1600002420},
+	{rel: "special/sticky", body: "sticky-on-disk", mode: os.ModeSticky | 0o644, mtime: 1600002430},
+	{rel: "tree/spool", dir: true, mode: os.ModeSticky | 0o777, mtime: 1600002440},
+	{rel: "tree/shared", dir: true, mode: os.ModeSetgid | 0o775, mtime: 1600002450},
+	{rel: "tree/shared/run", body: "run-as-owner", mode: os.ModeSetuid | os.ModeSetgid | 0o711, mtime: 1600002460},
 }
 
 // MkTree writes the base tree under dir (which must be fresh) and fixes
